@@ -70,9 +70,10 @@ class SyncEngine(BaseEngine):
                     result = self._trigger(trigger_data)
                     if first_result is self._sentinel:
                         first_result = result
-                except Exception:
+                except BaseException:
                     # Whe clear the queue as we don't have an expected behavior
-                    # and cannot keep processing
+                    # and cannot keep processing. This includes `asyncio.CancelledError`
+                    # (task cancellation / timeouts), which is not an `Exception`.
                     self._external_queue.clear()
                     raise
         finally:
